@@ -101,6 +101,8 @@ def act(a, c, st, case):
                 payload = plain(user, CREDS[user][:-3])
             elif cred == "empty-pw":
                 payload = plain(user, "")
+            elif cred in ("unknown-empty", "unknown-wrong"):
+                user = "ghost"; payload = plain("ghost", "" if cred == "unknown-empty" else "guess")
             elif cred == "authzid-victim":
                 payload = base64.b64encode(b"victim@example.org\0mallory\0" + CREDS["mallory"].encode()).decode()
             else:
@@ -109,6 +111,8 @@ def act(a, c, st, case):
             payload = "="
         elif mech == "DIGEST-MD5":
             payload = "="
+            if cred.startswith("unknown"):
+                user = "ghost"    # an account the password checker does not know
         else:
             payload = plain(user, CREDS[user])
         st["last_auth"] = (mech, cred, user)
@@ -127,7 +131,7 @@ def act(a, c, st, case):
             # answer the challenge with right or wrong credentials (RFC 2831)
             ch = dict(p.split("=", 1) for p in base64.b64decode(el.text or "").decode().replace('"', "").split(",") if "=" in p)
             nonce, cnonce, uri = ch.get("nonce", ""), "cn0nce", "xmpp/" + DOMAIN
-            pw = CREDS[user] if cred == "right" else "wrong-pw"
+            pw = CREDS[user] if cred == "right" else "" if cred in ("unknown-empty", "empty-pw") else "wrong-pw"
             h = lambda b: hashlib.md5(b).digest()
             hx = lambda b: hashlib.md5(b).hexdigest().encode()
             a1 = h(("%s:%s:%s" % (user, DOMAIN, pw)).encode()) + (":%s:%s" % (nonce, cnonce)).encode()
@@ -308,7 +312,8 @@ def alphabet(full):
     A = [("open", "right"), ("auth", "PLAIN", "right"), ("auth", "PLAIN", "wrong"), ("bind",), ("stanza", "message", "absent", "victim-bare"), ("stanza", "message", "victim", "victim-full"),
          ("stanza", "iq", "absent", "domain"), ("stanza", "presence", "absent", "victim-bare")]
     if full:
-        A += [("open", "wrong"), ("auth", "PLAIN", "malformed"), ("auth", "PLAIN", "prefix"), ("auth", "PLAIN", "authzid-victim"), ("auth", "DIGEST-MD5", "right"), ("auth", "DIGEST-MD5", "wrong"),
+        A += [("open", "wrong"), ("auth", "PLAIN", "malformed"), ("auth", "PLAIN", "prefix"), ("auth", "PLAIN", "authzid-victim"), ("auth", "DIGEST-MD5", "right"), ("auth", "DIGEST-MD5", "wrong"), ("auth", "DIGEST-MD5", "unknown-empty"), ("auth", "DIGEST-MD5", "unknown-wrong"), ("auth", "DIGEST-MD5", "empty-pw"),
+              ("auth", "PLAIN", "unknown-empty"), ("auth", "PLAIN", "unknown-wrong"), ("auth", "DIGEST-MD5", "unknown-empty", "sasl2"),
               ("auth", "ANONYMOUS", "x"), ("auth", "X-UNKNOWN", "x"), ("auth", "PLAIN", "right", "sasl2"), ("auth", "PLAIN", "wrong", "sasl2"), ("abort",), ("response",), ("session",),
               ("stanza", "message", "third", "victim-full"), ("stanza", "message", "own", "victim-full"), ("stanza", "message", "empty", "victim-bare"), ("stanza", "iq", "victim", "victim-full"),
               ("stanza", "message", "victim-bare", "absent"), ("stanza", "presence", "victim", "domain"),
@@ -387,6 +392,9 @@ def main(tier, replay=None):
             for to in ("victim-full", "victim-bare"):
                 for k in range(1, 4):
                     words.append([("open", "right"), ("auth", "PLAIN", "right"), ("open", "right"), ("bind",)] + [("stanza", "smuggle", frm, to, where)] * k)
+    # every credential variant of every mechanism right after the stream header, followed by what an accepted client would do
+    for a_ in [x for x in full if x[0] == "auth"]:
+        words.append([("open", "right"), a_, ("open", "right"), ("bind",), ("stanza", "message", "absent", "victim-full")])
     # pipelined logins: the burst right after the stream header, after a failed attempt, twice in a row, after a completed login
     for b in [x for x in full if x[0] == "burst"]:
         for pre in ([], [("auth", "PLAIN", "wrong")], [b], [("auth", "PLAIN", "right"), ("open", "right")]):
